@@ -445,7 +445,11 @@ def convert_data(arr, carrier):
     if carrier == "tuple_none":
         return tuple(None if m else float(v) for v, m in zip(arr.tolist(), isn.tolist())), True
     if carrier == "float32":
-        return arr.astype("float32"), True
+        f32 = arr.astype("float32")
+        # the SAME logical series: only when every value is a single-precision number
+        if not np.array_equal(f32.astype("float64"), arr, equal_nan=True):
+            return arr, False
+        return f32, True
     if carrier == "int64":
         if isn.any() or not np.all(arr == np.floor(arr)):
             return arr, False
